@@ -79,9 +79,15 @@ def parse_scenario(text):
     return kind, attrs, lines
 
 
+TIMEOUT = {"quick": 240, "thorough": 2400}
+TIER = ["quick"]
+
+
 def run_supp(c_exe, lines):
     """-> list of (line, bad, detail, raw output)"""
-    rc, out, err = vlib.run_driver(c_exe, "\n".join(lines) + "\n", args=["supp"], timeout=3000)
+    rc, out, err = vlib.run_driver(c_exe, "\n".join(lines) + "\n", args=["supp"], timeout=TIMEOUT[TIER[0]])
+    if rc == 124:
+        err = "the sampler did not return within %d s" % TIMEOUT[TIER[0]]
     res = []
     outs = [l for l in out.splitlines() if l.startswith("supp ")]
     for i, l in enumerate(lines):
@@ -100,9 +106,9 @@ def run_supp(c_exe, lines):
 
 
 def run_stat(c_exe, jobs):
-    spec = {"exe": c_exe, "workers": vlib.NPROC, "jobs": jobs}
+    spec = {"exe": c_exe, "workers": vlib.NPROC, "jobs": jobs, "timeout": TIMEOUT[TIER[0]]}
     p = subprocess.run(["python3-vt", os.path.join(vlib.VERIF, "tools", "diststat.py")], input=json.dumps(spec).encode(),
-                       stdout=subprocess.PIPE, stderr=subprocess.PIPE, timeout=3000)
+                       stdout=subprocess.PIPE, stderr=subprocess.PIPE, timeout=4000)
     if p.returncode != 0:
         raise RuntimeError("tools/diststat.py failed: " + p.stderr.decode("utf-8", "replace")[-2000:])
     return json.loads(p.stdout)
@@ -275,6 +281,31 @@ def judge_script(c_exe, lines, exact):
     return None, stats
 
 
+# ---- the generated tables against the curve they are meant to lie on (deterministic numerical check, not proof) -------------
+
+def check_tables(impl):
+    """corner points (x_i, y_i), i <= zig_max + 1, must lie on the pdf: y_i = exp(-x_i) resp. exp(-x_i^2 / 2), to 1e-12 relative
+    (the generated text has 15 significant digits; observed 2e-14).  Monotonicity, ranges etc. are theorems (exp_tables_ok)."""
+    import math
+    out = []
+    try:
+        te = gen_rngdist.parse_inc(os.path.join(impl["dir"], "cmi_random_exp_zig.inc"))
+        tn = gen_rngdist.parse_inc(os.path.join(impl["dir"], "cmi_random_nor_zig.inc"))
+    except Exception as ex:                                      # noqa: BLE001
+        return ["table files unreadable: %s" % ex]
+    for nm, t, px, py, pm, scale, f in (
+            ("exponential", te, "cmi_random_exp_zig_pdf_x", "cmi_random_exp_zig_pdf_y", "cmi_random_exp_zig_max", 2.0 ** 64, lambda v: math.exp(-v)),
+            ("normal", tn, "cmi_random_nor_zig_pdf_x", "cmi_random_nor_zig_pdf_y", "cmi_random_nor_zig_max", 2.0 ** 63, lambda v: math.exp(-0.5 * v * v))):
+        x, y, zm = t[px][2], t[py][2], t[pm][2][0]
+        for i in range(min(zm + 2, len(x), len(y))):
+            want = f(x[i] * scale)
+            if abs(y[i] * scale - want) > 1e-12 * want:
+                out.append("%s ziggurat table: corner point %d is not on the pdf: x = %.15g, y = %.15g, pdf(x) = %.15g" % (
+                    nm, i, x[i] * scale, y[i] * scale, want))
+                break
+    return out
+
+
 # ---- the check ------------------------------------------------------------------------------------------------------
 
 def seed_for(chk, i, salt):
@@ -283,6 +314,7 @@ def seed_for(chk, i, salt):
 
 def run(chk):
     quick = chk.tier == "quick"
+    TIER[0] = chk.tier
     impl = vlib.build_impl("rel")
     chk.cov["trusted_base"] = TRUSTED
     chk.assumptions += [
@@ -357,6 +389,12 @@ def run(chk):
         cf = known_ids[kid].get("corpus", "")
         if not os.path.exists(os.path.join(vlib.VERIF, cf)):
             chk.notes.append("known finding %s: corpus file %s missing" % (kid, cf))
+
+    # ---- the tables against the pdf (numerical) ---------------------------------------------------------------------
+    for msg in check_tables(impl):
+        evals += 1
+        failures.append(("tables", msg, "#! kind=tables\n# %s\n" % msg))
+    dist["tables-vs-pdf"] += 1
 
     # ---- T-corr ------------------------------------------------------------------------------------------------
     validated = 0
@@ -441,7 +479,7 @@ def run(chk):
                                      "support of the samplers whose bodies are not modelled (normal, gamma, beta, Poisson, ...): support scan"]
 
     # ---- verdicts -----------------------------------------------------------------------------------------------------
-    order = {"support": 0, "corr": 1, "stat": 2}
+    order = {"support": 0, "tables": 1, "corr": 2, "stat": 3}
     seen = set()
     for kind, what, replay in sorted(failures, key=lambda f: order[f[0]]):
         # one violation per distribution (the corpus scenario, the grid's support scan and the statistical tier usually all see it)
@@ -454,6 +492,8 @@ def run(chk):
             chk.violation("a sampler left the mathematical support of its distribution on the real library: " + what, replay, True)
         elif kind == "stat":
             chk.violation("samples do not follow the stated distribution (statistical test on the real library): " + what, replay, True)
+        elif kind == "tables":
+            chk.violation("a build-time generated ziggurat table is wrong (the samples cannot follow the stated distribution): " + what, replay, True)
         else:
             # a disagreement between model and library is a broken tie unless it also shows an invalid value
             chk.violation("T-corr: " + what, replay, "returned the index" in what or "is not exact" in what)
@@ -485,6 +525,13 @@ def replay(chk, path):
             chk.violation("replay: `%s`: %s" % bad[0], "#! kind=support\n%s\n" % bad[0][0], True)
         else:
             chk.log("replay: every value inside the support (%d command(s))" % len(lines))
+        return
+    if kind == "tables":
+        msgs = check_tables(impl)
+        if msgs:
+            chk.violation("replay: " + msgs[0], "#! kind=tables\n# %s\n" % msgs[0], True)
+        else:
+            chk.log("replay: the corner points of both ziggurat tables lie on the pdf")
         return
     if kind == "stat":
         sup = attrs.get("support", "-inf,inf,-").split(",")
